@@ -410,6 +410,8 @@ func explore32(id string, depth int) {
 					d.w(bu(tu.CompareAndSwap(uint32(o), uint32(n))))
 					d.w(bu(atomic.CompareAndSwapUintptr(&up, uintptr(uint32(o)), uintptr(uint32(n)))))
 				}
+				// uintptr is 32 bits wide in GopherJS (documented): keep the reference value in that range
+				atomic.StoreUintptr(&up, uintptr(uint32(atomic.LoadUintptr(&up))))
 			}
 			d.w(uint32(x))
 			d.w(u)
